@@ -53,8 +53,8 @@ PROPS.update({
         level_text="Two or three real Log instances with the same key on one simulated lock store and storage, started at arbitrary steps (also while another instance is between its CAS and its uploads, so that recovery runs concurrently), interleaved at storage/lock-operation granularity with slow-node faults; oracle: no fork and append-only history over the union of all checkpoints, a CAS loser stops with the fatal error, acknowledges nothing from that round and commits nothing afterwards; at the end of every run eleven start-up states built from the final durable state (lock behind storage, same size/different root, foreign name/key, missing checkpoint, lock ahead without staging, checkpoint from the future, CreateLog over an existing log) must be refused while the unmodified twin loads.",
         expect_probes=["cas.lost", "probe.twin", "probe.lock-behind-storage", "fault.slow"]),
     "C07": dict(SEQ,
-        level_text="Duplicate submissions (same item resubmitted, client retries of failed submissions) in every phase of a round, with cache faults between incarnations (deleted, rolled back to a snapshot, converted to the legacy 128-bit table); oracle: within a cache epoch all acknowledgements of an entry carry one (index, timestamp); an entry that is pending or acknowledged in the epoch is never admitted again; leaves per entry <= admissions minus evictions; every acknowledgement from any cache source satisfies the C02 storage oracle.",
-        expect_probes=["fault.cache.delete", "fault.cache.rollback", "fault.cache.legacy"]),
+        level_text="Duplicate submissions (same item resubmitted, client retries of failed submissions) in every phase of a round, with cache faults between incarnations (deleted, rolled back to a snapshot, converted to the legacy 128-bit table, rebuilt by the built cmd/recompute-cache binary from a materialised copy of the simulated storage, the log key being derived from a seed file the way cmd/sunlight does); oracle: within a cache epoch all acknowledgements of an entry carry one (index, timestamp); an entry that is pending or acknowledged in the epoch is never admitted again; leaves per entry <= admissions minus evictions; every acknowledgement from any cache source satisfies the C02 storage oracle.",
+        expect_probes=["fault.cache.delete", "fault.cache.rollback", "fault.cache.legacy", "fault.cache.recompute"]),
     "C08": dict(SEQ,
         level_text="After a simulated prefix, objects are deleted, truncated, bit-flipped, extended, swapped or rolled back (biased towards the right-edge tiles, checkpoint and staging bundles that recovery reads), combined with crashes, restarts and further sequencing; oracle: every checkpoint committed to the lock store afterwards has root MTH(pre-tamper leaves ++ entries sunlight itself staged afterwards), those entries are submitted ones with the right indexes, and every acknowledgement names such an index. Refusing to load or stopping is accepted.",
         expect_probes=["fault.tamper.flip", "fault.tamper.delete", "tamper.commit.checked"]),
